@@ -250,7 +250,7 @@ def t_key_forms(rec, seed, tier):
 
     n = 2000 if tier == "quick" else 8000
     deco = st.fixed_dictionaries({
-        "lower": st.booleans(), "typo": st.booleans(), "sep": st.sampled_from(["", "", " ", "-", "  ", "- "]), "strip_pad": st.booleans(),
+        "lower": st.booleans(), "typo": st.booleans(), "sep": st.sampled_from(["", "", " ", "-", "  ", "- ", "\t", "\n", " \r\n"]), "strip_pad": st.booleans(),
         "upper_hex": st.booleans(), "as_bytes": st.booleans(),
     })
     cases = st.fixed_dictionaries({"key": st.one_of(st.binary(min_size=10, max_size=64), st.binary(min_size=1, max_size=9)), "deco": deco})
